@@ -235,5 +235,16 @@ Definition round_events (r : round) : list mev :=
    like any other: a failed attempt that is waited out; the Session object is not touched
    (Transport.Connect fails before NewSession runs). *)
 Definition header_write_failure : attempt := AFail false false.
+(* A connection that ends in the middle of the TLS handshake which follows <proceed/> --
+   before the server's answer to the ClientHello, inside a record header, inside a record
+   payload, on a record boundary -- is a cut, not a refusal: the attempt is waited out.  TLS
+   being mandatory, NewSession returns no Session object.  (Model/Session.v's [connect] has
+   one flag for the handshake, tls_ok = false, and that means REFUSED; this third outcome is
+   named here.) *)
+Definition handshake_cut : attempt := AFail false true.
+(* Rejected credentials after which the server hangs up before the client has closed its
+   stream (closing the failed connection then fails too, over TLS the close_notify cannot be
+   written): the attempt is as permanent as when the server waits for the closing tag. *)
+Definition rejected_then_hung_up : attempt := AFail true false.
 Definition attempt_permanent (a : attempt) : bool :=
   match a with AFail p _ => p | _ => false end.
